@@ -80,6 +80,29 @@ CLAIMED.update({
          NOTE, "DESIGN.md §4 C03"),
 })
 
+
+# clauses added in session 4 (round 4 of the seeded changes and the reports about the unchanged tree); DESIGN.md §4 "Session 4"
+EXTRA = {
+ "C01": " Added later (DESIGN.md §4, Session 4): a refused replacement puts the old pattern back (IDX-ROLLBACK); writer and reader of the trie combine nested and remaining pairs in the same order (IDX-ORDER); the ancestor walk has a visited set (ANC-ONCE); an empty schedule is no schedule everywhere (SCHED-AGREE); the variable-key branch is tried whether or not the key is literal (IDX-KEYVAR); every sortable element type has a case in Less (LESS-COVERS); picast is idempotent (PICAST-IDEM); SortValues sorts a copy (MOD-INDEX); a candidate that went away during the scan is skipped (LOST-RULE-SKIP); no copy into a zero-length slice (COPY-EMPTY). Known finding: an unsortable event array fails the whole event (IDX-SORT-TOTAL).",
+ "C02": " Added later: every addition to the term set passes the extractor's own filter (TERM-FILTER); indexed terms come from the prepared fact (TERM-PREPARED).",
+ "C03": " Added later: TERM-PREPARED (the terms a pattern query relies on are those of the stored fact).",
+ "C04": " Added later: the thunk builders do not look into the bindings before the thunk runs (THUNK-LAZY); `values` is tested against the action's own disposition (VALUES-OWN-DISP); DecodeString's result depends on the code (DECODE-DEP); IDX-ORDER; SortValues does not reorder the submitted event (MOD-INDEX).",
+ "C06": " Added later: memory is written after Storage.Add succeeded or a failed write takes it out again (STORE-BEFORE-MEM; IndexedState.Add is a known finding); storage removal before the fact leaves memory (REM-STORE-FIRST); the add hook runs before Storage.Add (HOOK-BEFORE-STORE); the stored parents list is a value, never nil/aliased (PARENTS-VALUE).",
+ "C07": " Added later: the ttl is consumed when it is turned into expires (EXP-TTL-CONSUMED); the clock is read after the state lock was taken (CLOCK-AFTER-LOCK); an absolute expires is not added to the clock (EXP-ABSOLUTE).",
+ "C08": " Added later: TERM-FILTER (the cascade's search terms), REM-STORE-FIRST.",
+ "C09": " Added later: every callback of the ancestor walk re-points the context (ANC-RESTORE); the walk has a visited set, so a diamond of parents is not a duplicate (ANC-ONCE); PARENTS-VALUE; COPY-EMPTY.",
+ "C10": " Added later: rules embedded in an event are refused in a disabled location (GATE-FIRE); STORE-BEFORE-MEM (IndexedState.Add is a known finding); IDX-ROLLBACK.",
+ "C11": " Added later: the lock-order graph over rulio's mutexes has no cycle (LOCK-ORDER); no append-insert clobbers the tail of a shared slice (APPEND-CLOBBER).",
+ "C12": " Added later: LOCK-ORDER; values reachable from shared state are not written by readers (SHARED-WRITE); the failed-open clean-up re-checks under both locks (CACHE-EVICT).",
+ "C13": " Added later: no call hands a dereferencing function the zero value of a variable no store has reached (NIL-ZERO-ARG); the error of the cache's Get originates in opening / the existence check only (CACHE-ERR-ORIGIN).",
+ "C14": " Added later: ANC-RESTORE, THUNK-LAZY, every constructor parameter is used (CTOR-PARAM: the per-group script timeout reaches the location).",
+ "C15": " Added later: the cron loop re-arms its timer on every wake-up (CRON-REARM); the timeline stays sorted (TIMELINE-ORDER); the add hook never leaves a refused replacement without its job (HOOK-ADD-KEEPS), unregisters a scheduled rule that is overwritten by something unscheduled (HOOK-REPLACE) and runs before storage is written (HOOK-BEFORE-STORE); a due time from cronexpr is stored only under an IsZero test (CRON-NEXT-ZERO); OneShotSchedule classifies the trimmed schedule (ONESHOT-AGREE); crolt request URLs carry their endpoint (CROLT-URL).",
+ "C16": " Added later: CRON-REARM, TIMELINE-ORDER, CRON-NEXT-ZERO, time.Parse argument order (TIME-PARSE-ARGS), CROLT-URL, every store into Job.at is a UTC time (AT-UTC), writer and deleter of a job agree on the partition (PARTITION-AGREE), bolt errors inside transactions reach the closure's result (BOLT-ERR).",
+ "C17": " Added later: get-or-create on the cache table is decided by presence (CACHE-GET-OR-CREATE); the in-use mark counts its users (PENDING-COUNT: known finding); CACHE-EVICT; with CachePending on every new entry is published before the table lock is released (CACHE-PENDING-SHARED); the two cache mutexes are taken in one order (LOCK-ORDER); every checked request looks at the creation marker, cached or not (EXIST-EVERY); Storage.Load does not write the storage object (LOAD-PURE).",
+ "C19": " Added later: the key gates fail closed when the key cannot be read (GATE-FAILCLOSED).",
+ "C20": " Added later: CTOR-PARAM (the per-group capacity reaches the location); the throttle gives back only slots it took (THR-PENDING).",
+}
+
 NOT_APPLICABLE = {
 }
 
@@ -90,6 +113,7 @@ def main():
     for pid in props:
         if pid in CLAIMED:
             tech, text, note, ref = CLAIMED[pid]
+            text = text + EXTRA.get(pid, "")
             checks.append({
                 "property_id": pid,
                 "quick_cmd": f"./check {pid} quick",
